@@ -94,25 +94,26 @@ NOT_YET = {
 
 # stages added after the first registration (appended to the level text; details in DESIGN.md §0.2, §0.6, §10)
 ADDENDA = {
- "C01": " Arms of the generator: wide-extent workloads (values of 200-600 blocks), keys of 65 535-102 400 bytes.",
- "C02": " Workload families: free-form, wide batches (60-300 records in one shard), wide extents (200-600 blocks), mass deletions (> 1024 retirements in one flush).",
- "C03": " Workload families: free-form, wide batches (60-300 records in one shard), wide extents (200-600 blocks), mass deletions (> 1024 retirements in one flush, crash points around every fsync of that flush with the most recent write torn).",
+ "C01": " Arms of the generator: wide-extent workloads (values of 200-600 blocks), keys of 65 535-102 400 bytes; JSON documents in serde_json's own output form with patches that succeed without changing the document.",
+ "C02": " Workload families: free-form, wide batches (60-300 records in one shard), wide extents (200-600 blocks), mass deletions (> 1024 retirements in one flush), devices filled to their very last block (transactions whose extent ends at the device end). Half of the workloads acknowledge through 2-3 application threads calling flush() at once: every Ok is an acknowledgement of everything completed before the flushes began.",
+ "C03": " Workload families: free-form, wide batches (60-300 records in one shard), wide extents (200-600 blocks), mass deletions (> 1024 retirements in one flush, crash points around every fsync of that flush with the most recent write torn), devices filled to their very last block; concurrent flush() callers in half of the workloads.",
  "C04": " Two further stages: codec-synthesised images forcing every repair kind, and mass-retirement images (380-1250 duplicated keys of 1-3 blocks, so one recovery spans several journal transactions) cut after/before every recovery fsync with torn marker writes; this stage found and led to the repair of a genuine defect (known_findings.jsonl).",
  "C05": " Further stages: fill cycles, wide-extent workloads, exact partition right after recovering crash images and synthesised images, and at the first acknowledged flush after an outage (transient, site-filtered I/O faults over C09's workloads).",
  "C06": " Device sizes that are not a whole number of blocks are part of both parts.",
  "C07": " Sub-campaign C07M: explicit timestamps ahead of the wall clock published while helper threads draw automatic timestamps in the same clock shard; at quiescence an automatic call on the key must be accepted and stamped above the explicit one.",
+ "C08": " Three programs in ten put key 0 on a virtual clock (one-second TTLs, clock jumps, deletes of the expired key). Sub-campaign C08S: a reader parked between locating and reading an extent while the generation goes away (overwrite, delete, TTL update + overwrite, expiry followed by delete / lazy removal / sweeper / re-creation), then flush next to writes that want the freed blocks: no device write may touch the pinned blocks, the reader returns a genuine generation, not-found or StaleExtent.",
  "C09": " Fault sites include record-only and marker-only writes; generators include bursts (> 1024 entries pending in one shard) and chains of unwritten generations behind an acknowledged one.",
  "C10": " Added oracle: no retirement marker's announced span covers a live record. Added stage: sparse devices beyond 4 GiB with records before, across and beyond byte offset 2^32.",
  "C11": " Further stages: recovery of codec-synthesised images against an independent newest-wins/expiry oracle, mass-retirement restarts, sweeper racing writers (engine D).",
  "C12": " Further stages: budgeted stores with explicit future timestamps on refused calls; automatic-write probe right after recovering crash images and synthesised images whose timestamps lie ahead of the clock.",
  "C13": " Keys of 65 535-102 400 bytes are part of the generator; one concurrent program in six runs on a store without any memory limit.",
  "C14": " One case in twenty queries ranges over 257-620 index entries with limits around 256/512; another one runs a few keys against a small memory budget (refused zero-copy updates followed by full-range queries).",
- "C16": " Sub-campaign C16S: a reader parked inside its device read while the key is overwritten (stale cache entry of a retired generation), then flush and a follow-up call (update_ttl / persist / get / compare-and-swap); reads live and after restart must see the current generation.",
- "C15": " Disturbances: source mtime touched, a foreign file planted at the destination while the migration runs; mass sources (hundreds of duplicated keys).",
+ "C16": " Sub-campaign C16S: a reader parked inside its device read while the key is overwritten (stale cache entry of a retired generation), then flush and a follow-up call (update_ttl / persist / get / compare-and-swap); reads live and after restart must see the current generation. The ClockCache campaign includes fills of 300-3500 small entries (several entries per bucket).",
+ "C15": " Disturbances: source mtime touched, a foreign file planted at the destination while the migration runs; mass sources (hundreds of duplicated keys); multi-block values whose continuation blocks begin with the image of a legacy record of a key nobody wrote.",
  "C17": " Image classes include files whose first 255-513 blocks are zero with foreign bytes behind them (the blank-device scan works in 256-block chunks).",
- "C18": " One program in four: several flush() callers on a device whose record writes fail 3-9 times in a row again and again; hangs are re-run alone up to three times.",
- "C19": " Further phases: writes waiting for space on a full device until accepted deletes reclaim it; bursts of 64-200 KiB values (bytes, not entries, fill the shard buffer).",
- "C20": " A last stage runs uninstrumented: DiskIO::batch_write sequences on a slow device (Unix datagram socket pair) with rejected writes and generated stalls; the device must only ever receive submitted bytes (reads done by the kernel are invisible to AddressSanitizer).",
+ "C18": " One program in four: several flush() callers on a device whose record writes fail 3-9 times in a row again and again; hangs are re-run alone up to three times. One program in nine: a slow writer, 1-2 flush() callers and 6-12 readers pinned to one cpu (readers descheduled at arbitrary instructions of get() while the record they hold is retired).",
+ "C19": " Further phases: writes waiting for space on a full device until accepted deletes reclaim it; bursts of 64-200 KiB values (bytes, not entries, fill the shard buffer); 0.3-0.9 s of sustained overwriting by 2-4 threads (workers busy across periodic ticks) followed by sparse probes on every shard.",
+ "C20": " A last stage runs uninstrumented: DiskIO::batch_write sequences on a slow device (Unix datagram socket pair) with rejected writes and generated stalls; the device must only ever receive submitted bytes (reads done by the kernel are invisible to AddressSanitizer). A second uninstrumented stage drives DiskIO in direct-I/O mode (never selected by the store inside a container) with generated write/read sequences in a child process built with feoxdb's default features, i.e. with jemalloc as the global allocator: reads must return the model's bytes, aligned-buffer accounting must return to its baseline, the child must not die by a signal (a buffer released through the wrong allocator is invisible to the ASan build, which uses the system allocator).",
 }
 
 def main():
@@ -138,11 +139,11 @@ def main():
         "crash": ("harness/src/crash.rs", "device-write trace -> crash images (prefix x subset x tearing) -> reopen (proptest workloads, enumerated images)"),
         "fault": ("harness/src/props/c09.rs", "per-I/O-call fault plans over generated workloads"),
         "conc": ("harness/src/conc.rs", "steered multi-threaded programs with history oracles"),
-        "unit": ("harness/src/props/ (c06.rs, c15.rs, c16unit.rs, c17.rs, synthrec.rs, bigdev.rs, c20k.rs)", "component-level generated sequences / images"),
+        "unit": ("harness/src/props/ (c06.rs, c15.rs, c16unit.rs, c17.rs, synthrec.rs, bigdev.rs, c20k.rs, c20j.rs + harness-dio/)", "component-level generated sequences / images"),
     }
     manifest = {
         "version": 1,
-        "setup_cmd": "cd /verif/harness && CARGO_NET_OFFLINE=true cargo build --release --offline",
+        "setup_cmd": "cd /verif/harness && CARGO_NET_OFFLINE=true cargo build --release --offline && cd /verif/harness-dio && CARGO_NET_OFFLINE=true cargo build --release --offline",
         "hooks": {
             "guard": "--cfg feoxdb_verif",
             "enable": "harness/.cargo/config.toml sets rustflags = [\"--cfg\", \"feoxdb_verif\"]; feoxdb is a path dependency on /repo, so every ./check rebuilds it from the working tree with the hooks compiled in",
